@@ -156,6 +156,12 @@ func RunHistory(w *World, def *CheckDef, profName string, seed uint64, idx int, 
 	if def.Tweak != nil {
 		def.Tweak(g, &cfg)
 	}
+	var prefix []Step
+	if idx < len(def.Scripts) {
+		if sc := scripts()[def.Scripts[idx]]; sc != nil {
+			prefix = sc(g, &cfg)
+		}
+	}
 	r := NewRunner(w, cfg, rep)
 	rep.runner = r
 	g.R = r
@@ -167,9 +173,8 @@ func RunHistory(w *World, def *CheckDef, profName string, seed uint64, idx int, 
 			r.ProbeEvery = 1
 		}
 	}
-	if prof.Script != "" {
-		g.queue = script(prof.Script, g)
-	}
+	r.Hist.ProbeEvery = r.ProbeEvery
+	g.queue = prefix
 	var logf *bufio.Writer
 	if logPath != "" {
 		f, err := os.OpenFile(logPath, os.O_CREATE|os.O_WRONLY|os.O_TRUNC, 0o644)
@@ -256,6 +261,9 @@ func ReplayHistory(w *World, def *CheckDef, h *History, trace bool) *Report {
 	r := NewRunner(w, h.Config, rep)
 	rep.runner = r
 	r.Mons = def.Mons(r)
+	if h.ProbeEvery > 0 {
+		r.ProbeEvery = h.ProbeEvery
+	}
 	r.Hist = &History{Property: def.Prop, Profile: h.Profile, Seed: h.Seed, Index: h.Index, Config: h.Config}
 	func() {
 		defer func() {
